@@ -59,9 +59,10 @@ Apply(s, e) ==
              c == Len(e.o2) = n /\ \A i \in 0..(n - 1) : e.o2[(L - M - i) + 1] = e.o1[i + 1]
              \* the single-position entry point (ScoringMatrix::score_position) gives the same values on both strands
              d == e.p1 = e.o1 /\ e.p2 = e.o2
-         IN [ok |-> a /\ b /\ c /\ d, st |-> s,
+             \* ... and read from the back (the recorder compares iter().rev(), reversed, with the forward list of each strand)
+         IN [ok |-> a /\ b /\ c /\ d /\ e.back_ok, st |-> s,
              exp |-> [why |-> IF ~a THEN "sequence_reverse_complement" ELSE IF ~b THEN "forward_scores" ELSE IF ~c THEN "mirrored_scores"
-                              ELSE "score_position_differs"]]
+                              ELSE IF ~d THEN "score_position_differs" ELSE "backward_iteration_differs"]]
 
 TK == INSTANCE TraceKit
 Spec == TK!TKSpec
